@@ -112,3 +112,13 @@ Definition iso_project (vs : list (V2 Fl)) (x y pp : fV3) : list (list Fl) :=
 Definition iso_force (t : tetra) (e : fV4) (plane : fV4) (poly : list fV3) (E : Fl) : list Fl :=
   let '(com, force, area) := compute_contact_force t e plane poly E in
   enc3 com ++ enc3 force ++ [area].
+
+(** ** C16: wrench accumulation and express_in on binary64 *)
+From D3 Require Import Model.HydroWrench.
+Definition mk_pose (a b c d e f g h i x y z : Fl) : Pose Fl := P (M (V a b c) (V d e f) (V g h i)) (V x y z).
+Definition run_wrench (forces coms : list fV3) (com1 com2 : fV3) (T : Pose Fl) : list Fl :=
+  let '((f12, t12), (f21, t21)) := accumulate_wrenches forces coms com1 com2 T in
+  enc3 f12 ++ enc3 t12 ++ enc3 f21 ++ enc3 t21.
+Definition run_express (old new : Pose Fl) (verts : list fV3) : list (list Fl) :=
+  let b2n := compose (invert_transform new) old in
+  map enc3 (transform_points b2n verts).
